@@ -1,7 +1,14 @@
 from functools import wraps
 
 
-__all__ = ['memoize', 'singleton', 'memoize_attr_check']
+__all__ = ['memoize', 'singleton', 'memoize_attr_check', 'clear_cache',
+           'clear_all_caches', 'cache_generation']
+
+# The caches of all functions decorated with memoize, and a counter that is
+# incremented every time they are all cleared (so that objects which keep
+# their own cache can tell that cached results may be out of date).
+_MEMOIZE_CACHES = []
+_CACHE_GENERATION = [0]
 
 
 def _make_key(args, kwargs):
@@ -11,6 +18,7 @@ def _make_key(args, kwargs):
 def memoize(func):
     """Save results of function calls to avoid repeated calculation"""
     memo = {}
+    _MEMOIZE_CACHES.append(memo)
 
     @wraps(func)
     def wrapper(*args, **kwargs):
@@ -46,6 +54,27 @@ def clear_cache(func):
         func.__memoize_cache.clear()
     except AttributeError:
         pass
+
+
+def clear_all_caches():
+    """
+    Clear the caches of all functions decorated by memoize.
+
+    Memoized results are keyed on object identity (e.g. subset state, data and
+    view), not on the values that the result was computed from, so this should
+    be called whenever these values change (for example when the numerical
+    values of a dataset or the links between datasets change).
+    """
+    for memo in _MEMOIZE_CACHES:
+        memo.clear()
+    _CACHE_GENERATION[0] += 1
+
+
+def cache_generation():
+    """
+    The number of times :func:`clear_all_caches` has been called.
+    """
+    return _CACHE_GENERATION[0]
 
 
 def memoize_attr_check(attr):
